@@ -25,14 +25,14 @@ func newFootprint(label string, epoch int) *footprint {
 }
 
 func (f *footprint) read(p Ptr) {
-	if p.Obj.Epoch >= f.epoch {
+	if p.Obj.Epoch >= f.epoch && !p.Obj.Released {
 		return
 	}
 	f.reads[cellKey{p.Obj.ID, fmt.Sprint(p.Path)}] = p.Obj.Name
 }
 
 func (f *footprint) write(p Ptr, e *Exec) {
-	if p.Obj.Epoch >= f.epoch {
+	if p.Obj.Epoch >= f.epoch && !p.Obj.Released {
 		return
 	}
 	f.writes[cellKey{p.Obj.ID, fmt.Sprint(p.Path)}] = p.Obj.Name + "@" + e.curSite()
